@@ -5,8 +5,8 @@
 #include <stdint.h>
 #include <string.h>
 
-enum { GV_NOISE = 0, GV_FLAT, GV_GRAD, GV_EXTREME, GV_EDGES, GV_SCREEN, GV_MOTION, GV_LOPSIDED, GV_NKINDS };
-static const char *gv_names[] = {"noise", "flat", "grad", "extreme", "edges", "screen", "motion", "lopsided"};
+enum { GV_NOISE = 0, GV_FLAT, GV_GRAD, GV_EXTREME, GV_EDGES, GV_SCREEN, GV_MOTION, GV_LOPSIDED, GV_PAN, GV_FASTPAN, GV_NKINDS };
+static const char *gv_names[] = {"noise", "flat", "grad", "extreme", "edges", "screen", "motion", "lopsided", "pan", "fastpan"};
 
 static inline int gv_kind(const char *s) {
     for (int i = 0; i < GV_NKINDS; i++)
@@ -85,6 +85,34 @@ static inline uint16_t gv_sample(int kind, uint32_t seed, int bits, int k, int p
         int v8  = p ? 128 + gv_isin(((p == 1 ? 52 : 39) * x + (p == 1 ? 33 : -46) * y) / 16 + ph + (p == 1 ? 0 : 64)) * 50 / 127
                     : 128 + s1 * 55 / 127 + s2 * 35 / 127 + n;
         v       = v8 * (1 << (bits - 8));
+        break;
+    }
+    case GV_PAN: { /* smooth texture panning slowly (3/4, 1/4 pixel per frame) with a small block moving the other way: long
+                    * runs of skip / skip-mode blocks with several distinct references */
+        int sc = p ? 2 : 1;                                  /* chroma planes are half size */
+        int x4 = 4 * x * sc + 3 * k, y4 = 4 * y * sc + k;    /* position in quarter pixels */
+        int v8;
+        if (p == 0) {
+            /* 0.21 rad/px = 8.56/256 turn per px = 2.14 per quarter px; 0.17 -> 1.73; 0.05 -> 0.51 */
+            int a = gv_isin((x4 * 214) / 100), b = gv_isin((y4 * 173) / 100 + 64), c = gv_isin(((x4 + y4) * 51) / 100);
+            v8 = 128 + (60 * a / 127) * b / 127 + 30 * c / 127;
+            int bx = ((pw - 16) * (127 + gv_isin(k * 4) * 115 / 127)) / 254, by = ((ph - 16) * (127 + gv_isin(k * 3 + 64) * 115 / 127)) / 254;
+            if (x >= bx && x < bx + 16 && y >= by && y < by + 16)
+                v8 = 200 + 40 * ((((x - bx) >> 2) + ((y - by) >> 2)) & 1);
+        } else if (p == 1)
+            v8 = 128 + 40 * gv_isin((x4 * 92) / 100) / 127;
+        else
+            v8 = 128 + 40 * gv_isin((y4 * 112) / 100 + 64) / 127;
+        (void)seed;
+        v = v8 * (1 << (bits - 8));
+        break;
+    }
+    case GV_FASTPAN: { /* textured background translating 13 / 5 pixels per frame: motion beyond small search ranges */
+        int sx = x + 13 * k, sy = y + 5 * k;
+        int t  = (int)(gv_hash(seed, (uint32_t)p, (uint32_t)sx >> 3, (uint32_t)sy >> 3) & 0xFFu);
+        int g  = gv_isin((sx * 3 + sy * 2) & 255) * 30 / 127;
+        int n  = (int)(gv_hash(seed, (uint32_t)k * 3u + (uint32_t)p, (uint32_t)x, (uint32_t)y) & 3u);
+        v      = ((t * 5) / 8 + 40 + g + n) * (1 << (bits - 8));
         break;
     }
     default: { /* GV_MOTION: textured background translating + noise, exercises inter tools */
